@@ -258,6 +258,11 @@ class APCI(PCI, DebugContents):
 
         PCI.update(self, pdu)
 
+        # nothing of a header that was decoded before stays
+        self.apduSeg = self.apduMor = self.apduSA = self.apduSrv = self.apduNak = None
+        self.apduSeq = self.apduWin = self.apduMaxSegs = self.apduMaxResp = None
+        self.apduService = self.apduInvokeID = self.apduAbortRejectReason = None
+
         # decode the first octet
         buff = pdu.get()
 
